@@ -343,9 +343,7 @@ func chainStress(k *mon.Case, readers, writerOps int) {
 					_, _ = da.GetTransaction(tx.ID)
 					branchTxLookups.Add(1)
 				}
-				if len(b.Transactions) == 0 {
-					time.Sleep(5 * time.Microsecond)
-				}
+				time.Sleep(10 * time.Microsecond)
 			}
 		}()
 	}
